@@ -23,7 +23,7 @@ impl Check for C04 {
     fn meta(&self) -> Meta {
         Meta {
             level: "exploration",
-            rule: "one run = one native-field operation of the instruction traits (arithmetic, assertions, zero / equality tests, boolean logic, bitwise, bit / byte / chunk (de)composition, canonicity, sign, range checks, comparison, division, select / swap, conversions) on boundary-class inputs, in a standard-library circuit - or, for typed assignment of bits / bytes (single and batched) and the comparison instructions on bounded values with a different bound per operand (variable and fixed forms), in a circuit built directly on NativeGadget - with a drawn number of pow2range columns (1..4) and table size (8..12 bits): honest execution (satisfiable with the reference result iff the inputs are admissible) and Byzantine executions in which one to three advice assignments are replaced (+1, -1, 0, 1, 1-v, -v, p-1, v+2^j, neighbour value, random) and the witness generator continues from the faulty value; an accepted execution must bind public inputs and outputs that satisfy the definition. Thorough mode walks every assignment ordinal of every 4th case. distinct_nontrivial counts distinct (case, plan) digests whose plan fired plus distinct honest cases",
+            rule: "one run = one native-field operation of the instruction traits (arithmetic, assertions, zero / equality tests, boolean logic, bitwise, bit / byte / chunk (de)composition, canonicity, sign, range checks, comparison, division, select / swap, conversions, insert / get sequences on the Merkle-tree map) on boundary-class inputs, in a standard-library circuit - or, for typed assignment of bits / bytes (single and batched) and the comparison instructions on bounded values with a different bound per operand (variable and fixed forms), in a circuit built directly on NativeGadget - with a drawn number of pow2range columns (1..4) and table size (8..12 bits): honest execution (satisfiable with the reference result iff the inputs are admissible) and Byzantine executions in which one to three advice assignments are replaced (+1, -1, 0, 1, 1-v, -v, p-1, v+2^j, neighbour value, random) and the witness generator continues from the faulty value; an accepted execution must bind public inputs and outputs that satisfy the definition. Thorough mode walks every assignment ordinal of every 4th case. distinct_nontrivial counts distinct (case, plan) digests whose plan fired plus distinct honest cases",
             assumptions: vec![
                 "MockProver is the constraint model of the verifier (cross-checked against the real prover and verifier by C02)",
                 "one to three faulted cells with honest continuation; a missing constraint that needs a coordinated change of several hints may escape",
@@ -45,9 +45,16 @@ impl Check for C04 {
         }
     }
     fn generate(&self, rng: &mut Prng, tier: Tier, idx: u64) -> Value {
-        let n = NATIVE_OPS.len() + NG_OPS.len();
+        let n = NATIVE_OPS.len() + NG_OPS.len() + 1;
         let i = (idx as usize) % n;
-        let case = if i < NATIVE_OPS.len() { gen_native_case(rng, NATIVE_OPS[i]) } else { crate::ops_ng::gen_case(rng, NG_OPS[i - NATIVE_OPS.len()]) };
+        let case = if i < NATIVE_OPS.len() {
+            gen_native_case(rng, NATIVE_OPS[i])
+        } else if i < NATIVE_OPS.len() + NG_OPS.len() {
+            crate::ops_ng::gen_case(rng, NG_OPS[i - NATIVE_OPS.len()])
+        } else {
+            // insert / get sequences on the Merkle-tree map
+            crate::ops_map::gen_case(rng)
+        };
         opcheck::to_json(&Scn { case, fault_seed: rng.u64(), n_plans: opcheck::plans_for(tier, idx), only: None, only_late: None })
     }
     fn execute(&self, scn: &Value, st: &mut Stats) -> Verdict {
